@@ -47,14 +47,21 @@ LATTICES = {
     "int":   [(1, 0), (1, -3), (1024, -5), (1, 1000), (2, 7)],
     "uint":  [(1, 0), (1, 7), (16, 2), (2, 0)],
 }
+# long random histories (tlc -simulate over NextDeep): calls per history, behaviours, histories kept, limits tried
+DEEP = {"quick": dict(depth=12, num=60, keep=300), "thorough": dict(depth=16, num=400, keep=3000)}
+DEEP_CONSTS = dict(HMins={2, 5}, HMaxs={0, 3}, HThin=1, HBothW=True)
+SCALE_REPS = ["f8", "i4", "rec12", "strided2", "f4", "u1", "reversed", "f8be", "rec20", "list"]
 
 BOUNDS = {
     "quick":    dict(MaxLen=3, Vals=set(range(1, 6)), BinSizes={1, 2, 3}, NBinSet={1, 2, 3, 4}, LimVals=set(range(0, 7)),
                      RepFan=1, HLens={1, 2, 3}, HVals={1, 2, 4}, HBinSizes={1, 2}, HNBins={2, 3}, HNPer={1, 2},
-                     HMins={2}, HMaxs={3}, HDepth=2, HThin=3, HBothW=False),
+                     HMins={2}, HMaxs={3}, HDepth=2, HThin=3, HBothW=False,
+                     ScaleNs={1023, 1024, 1025, 2048, 4096, 8192, 6145, 65537}, SmallNs={4, 5, 6}, ScaleThin=48),
     "thorough": dict(MaxLen=4, Vals=set(range(1, 7)), BinSizes={1, 2, 3, 5}, NBinSet={1, 2, 3, 4}, LimVals=set(range(0, 8)),
                      RepFan=1, HLens={1, 2, 3}, HVals={1, 2, 4}, HBinSizes={1, 2}, HNBins={2, 3}, HNPer={1, 2},
-                     HMins={2}, HMaxs={3}, HDepth=3, HThin=48, HBothW=True),
+                     HMins={2}, HMaxs={3}, HDepth=3, HThin=48, HBothW=True,
+                     ScaleNs={1023, 1024, 1025, 2047, 2048, 3072, 4096, 5121, 6145, 8192, 49152, 65535, 65536, 65537, 131073},
+                     SmallNs={4, 5, 6, 7}, ScaleThin=8),
 }
 
 
@@ -140,7 +147,7 @@ def spec_kw(c, unit, off, srep):
         kw["binsize"] = scalar(c["b"] * unit, srep)
     elif c["mode"] == "nbin":
         kw["nbin"] = np.int64(c["b"]) if srep.startswith("np") else int(c["b"])
-    else:
+    elif c["mode"] == "nperbin":
         kw["nperbin"] = int(c["b"])
     if c["hasmin"]:
         kw["min"] = scalar((c["min"] + off) * unit, srep)
@@ -414,6 +421,116 @@ def random_histories(rng, n, maxlen, start_id):
     return out
 
 
+# ---- scale cases ------------------------------------------------------------------------------------
+def scale_data(sc):
+    """the abstract data of a scale case (HistMC.tla: Expand): value j repeated mult[j] times, arranged"""
+    vals, mult = sc["vals"], sc["mult"]
+    if sc["arr"] == "blocks":
+        return np.repeat(np.array(vals, dtype="i8"), mult)
+    if sc["arr"] == "rblocks":
+        return np.repeat(np.array(vals[::-1], dtype="i8"), mult[::-1])
+    # round robin over the values that are left
+    k = len(vals)
+    rounds = np.arange(max(mult))
+    grid = np.broadcast_to(np.array(vals, dtype="i8"), (rounds.size, k))
+    keep = rounds[:, None] < np.array(mult)[None, :]
+    return grid[keep]
+
+
+def project(xabs, d):
+    """O(n) projection of a result onto what HSFailing reads: counts, the pointer part of rev, and per bin the
+    run-length encoding BY DATA VALUE of the slice (value, run length, indices strictly ascending within the run)"""
+    if "hist" not in d:
+        return {"err": "nohist", "hist": [], "hasrev": False, "ptr": [], "revlen": 0, "runs": []}
+    hist = np.asarray(d["hist"])
+    o = {"err": "none", "hist": [int(v) for v in hist], "hasrev": "rev" in d, "ptr": [], "revlen": 0, "runs": []}
+    if "rev" not in d:
+        return o
+    rev = np.asarray(d["rev"])
+    nb = hist.size
+    o["revlen"] = int(rev.size)
+    o["ptr"] = [int(v) for v in rev[:nb + 1]]
+    if len(o["ptr"]) != nb + 1:
+        return o
+    for i in range(nb):
+        a, e = o["ptr"][i], o["ptr"][i + 1]
+        runs = []
+        if 0 <= a <= e <= rev.size:
+            idx = rev[a:e]
+            if idx.size and (idx.min() < 0 or idx.max() >= xabs.size):
+                runs = [{"v": -1, "len": int(idx.size), "asc": False}]
+            elif idx.size:
+                v = xabs[idx]
+                cut = np.flatnonzero(np.diff(v)) + 1
+                starts = np.concatenate(([0], cut))
+                ends = np.concatenate((cut, [idx.size]))
+                up = np.diff(idx) > 0
+                for s0, e0 in list(zip(starts, ends))[:64]:
+                    runs.append({"v": int(v[s0]), "len": int(e0 - s0), "asc": bool(up[s0:e0 - 1].all())})
+        o["runs"].append(runs)
+    return o
+
+
+def run_scale(args):
+    import esutil.stat.util as su
+    i, sc = args
+    rep = SCALE_REPS[i % len(SCALE_REPS)]
+    entry = ENTRIES[(i // len(SCALE_REPS)) % len(ENTRIES)]
+    lat = lattice_for(rep, i, sc["vals"])
+    if lat is None:
+        raise MachineryError("no lattice holds scale case %r" % (sc,))
+    unit, off = lat
+    xabs = scale_data(sc)
+    x, buf = represent((xabs + off) * unit, rep)
+    kw = spec_kw(sc, unit, off, SREPS[i % len(SREPS)])
+    before = _snap(x, buf)
+    obs, raw = [], []
+    saved = su.have_chist
+    try:
+        for engine in ("c", "py"):
+            su.have_chist = (engine == "c") and saved
+            try:
+                with warnings.catch_warnings():
+                    warnings.simplefilter("ignore")
+                    with np.errstate(all="ignore"):
+                        if entry == "histogram":
+                            h, r = su.histogram(x, rev=True, **kw)
+                            d = {"hist": h, "rev": r}
+                        elif entry == "binner":
+                            d = su.Binner(x)
+                            d.dohist(rev=True, calc_stats=False, **kw)
+                        elif entry == "more":
+                            d = su.histogram(x, more=True, **kw)
+                        else:
+                            d = su.histogram(x, weights=np.ones(xabs.size), **kw)
+                o = project(xabs, d)
+                raw.append((np.asarray(d["hist"]).tobytes(), np.asarray(d["rev"]).tobytes()))
+            except Exception as e:  # noqa
+                o = {"err": type(e).__name__, "hist": [], "hasrev": False, "ptr": [], "revlen": 0, "runs": []}
+                raw.append(o["err"])
+            o["engine"] = engine
+            obs.append(o)
+    finally:
+        su.have_chist = saved
+    return {"id": i, "kind": "scale", "sc": sc, "obs": obs, "same": bool(raw[0] == raw[1]), "rep": rep, "entry": entry,
+            "frame_ok": _snap(x, buf) == before}
+
+
+def judge_scale(ctx, recs, what):
+    rejects = tracecheck.validate(ctx, "HistTrace.tla", [{"id": r["id"], "kind": "scale", "sc": r["sc"], "obs": r["obs"], "same": r["same"]}
+                                                         for r in recs], what=what, shard_size=40)
+    byid = {r["id"]: r for r in recs}
+    for rid, failing in rejects.items():
+        r = byid[rid]
+        for cl in failing:
+            ctx.violation("histogram.scale|%s|%s|%s" % (cl, r["sc"]["mode"], rep_class(r["rep"])),
+                          "result for %d data of few distinct values contradicts the concatenation law of Hist.tla: clause %s"
+                          % (sum(r["sc"]["mult"]), cl), {"kind": "scale", "sc": r["sc"], "id": r["id"], "obs": r["obs"]})
+    for r in recs:
+        if not r["frame_ok"]:
+            ctx.violation("histogram.scale|argument_modified", "histogram modified its data argument", {"kind": "scale", "sc": r["sc"], "id": r["id"]})
+
+
 # ---- judging ----------------------------------------------------------------------------------------
 def judge(ctx, recs, what, shard_size=5000):
     rejects = tracecheck.validate(ctx, "HistTrace.tla", [{"id": r["id"], "kind": "case", "c": r["c"], "obs": r["obs"]} for r in recs],
@@ -474,20 +591,33 @@ def _design_guard(cases, hists):
 
 def run(ctx):
     B = BOUNDS[ctx.tier]
-    consts = dict(B, FixedFill=True, DoExport=False, FixedCache=True)
+    consts = dict(B, FixedFill=True, DoExport=False, FixedCache=True, FixedSel=True)
     # 2. export every case and every object history (spec -> code)
     r2 = ctx.tlc("HistMC.tla", what="export cases and object histories",
                  cfg_text=cfg(constants=dict(consts, DoExport=True), next_="NextExport",
                               constraints=["Export"]), workers=1, coverage=False, timeout=3000)
     cases = r2.records.get("CASE", [])
     hists = r2.records.get("HIST", [])
-    if not cases or not hists:
-        raise MachineryError("no cases / histories exported")
+    scales = r2.records.get("SCALE", [])
+    if not cases or not hists or len(scales) < 20:
+        raise MachineryError("no cases / histories / scale cases exported")
+    if not any(cl["op"] == "dohist" and cl["mode"] == "none" for h in hists for cl in h["calls"][:-1]):
+        raise MachineryError("no rejected call inside an exported history")
+    # 2b. long random histories (behaviours of the object machine, tlc -simulate), rejected calls interleaved
+    D = DEEP[ctx.tier]
+    r2b = ctx.tlc("HistMC.tla", what="simulate long object histories",
+                  cfg_text=cfg(constants=dict(consts, DoExport=True, HDepth=D["depth"], **DEEP_CONSTS), next_="NextDeep",
+                               constraints=["Export"]), workers=1, coverage=False, timeout=3000,
+                  simulate="num=%d" % D["num"], extra=["-depth", str(D["depth"] + 2), "-seed", str(1000 + ctx.seed)])
+    deep = r2b.records.get("HIST", [])
+    deep = deep[:: max(1, len(deep) // D["keep"])][:D["keep"]]
+    if len(deep) < D["keep"] // 2 or any(len(h["calls"]) != D["depth"] for h in deep):
+        raise MachineryError("simulation produced %d long histories" % len(deep))
     design = _design_guard(cases, hists)
     # 1. design level: the implementation-shaped pass refines the property, every case of the space; the object with its
     #    cached sort index refines the property along every history
     r1 = ctx.tlc("HistMC.tla", what="mechanism and object refine property (exhaustive)",
-                 cfg_text=cfg(constants=consts, invariants=["MechRefines", "PassSafe", "RefAccepted", "ObjRefines", "CacheSound"]),
+                 cfg_text=cfg(constants=consts, invariants=["MechRefines", "PassSafe", "RefAccepted", "ObjRefines", "CacheSound", "ConcatLaw", "ScaleLaw"]),
                  workers=16, coverage=False, timeout=3000)
     # vacuity: the export run visits exactly the enumeration states of this run; the rest are Begin/Step/Fill states, of
     # which every runnable case has at least three
@@ -505,6 +635,12 @@ def run(ctx):
                   workers=4, allow_violation=True, coverage=False)
     if "ObjRefines" not in r1c.violated:
         raise MachineryError("self-test failed: ObjRefines not violated by the deviating object")
+    r1d = ctx.tlc("HistMC.tla", what="self-test: object that caches the [min,max] selection violates ObjRefines",
+                  cfg_text=cfg(constants=dict(small, FixedSel=False, MaxLen=1, HLens={2}, HDepth=3, HThin=1, ScaleNs=set()),
+                               invariants=["ObjRefines"]),
+                  workers=4, allow_violation=True, coverage=False)
+    if "ObjRefines" not in r1d.violated:
+        raise MachineryError("self-test failed: ObjRefines not violated by the object that caches the selection")
     recs = pmap(run_case, list(enumerate(cases, 1)))
     for r in recs:
         ctx.count(r["c"])
@@ -516,6 +652,15 @@ def run(ctx):
         ctx.count(r["h"])
     ctx.sample({"history": hrecs[len(hrecs) // 2]["h"], "observed": hrecs[len(hrecs) // 2]["steps"]})
     judge_histories(ctx, hrecs, "judge replayed object histories (HistTrace)")
+    drecs = pmap(run_history, list(enumerate(deep, len(hrecs) + 1)))
+    for r in drecs:
+        ctx.count(r["h"])
+    judge_histories(ctx, drecs, "judge simulated long histories (HistTrace)", shard_size=100 if ctx.quick else 600)
+    # 2c. scale: few distinct values, numbers of data across and at the engines' block boundaries, judged through the law
+    srecs = pmap(run_scale, list(enumerate(scales, 1)), chunk=2)
+    for r in srecs:
+        ctx.count(r["sc"])
+    judge_scale(ctx, srecs, "judge scale cases (HistTrace)")
     # 3. larger seeded cases and histories, code -> spec
     nrand, maxlen = (400, 60) if ctx.quick else (6000, 200)
     rc = random_cases(random.Random(ctx.seed), nrand, maxlen, len(recs) + 1)
@@ -524,7 +669,7 @@ def run(ctx):
         ctx.count(r["c"])
     judge(ctx, rrecs, "judge seeded larger cases (HistTrace)", shard_size=1200)      # long arrays: ~50 ms per record
     nhist, hmaxlen = (300, 60) if ctx.quick else (3000, 60)
-    rh = random_histories(random.Random(ctx.seed + 7919), nhist, hmaxlen, len(hrecs) + 1)
+    rh = random_histories(random.Random(ctx.seed + 7919), nhist, hmaxlen, len(hrecs) + len(drecs) + 1)
     rhrecs = pmap(run_history, rh)
     for r in rhrecs:
         ctx.count(r["h"])
@@ -546,7 +691,17 @@ def run(ctx):
     if last["rev"] == hprobe["steps"][-1]["obs"][0]["rev"]:
         last["rev"][-1] = (last["rev"][-1] + 1) % len(hprobe["h"]["x"])
     hstale = [dict(s, fresh=[False] + list(s["fresh"][1:])) for s in hprobe["steps"][:1]] + hprobe["steps"][1:]
+    sprobe = next(r for r in srecs if r["obs"][0]["err"] == "none" and r["obs"][0]["hasrev"] and max(r["obs"][0]["hist"]) >= 1024)
+    so = dict(sprobe["obs"][0]); so["ptr"] = list(so["ptr"])
+    lastb = max(i for i, v in enumerate(so["hist"]) if v)
+    so["ptr"][lastb + 1:] = [so["ptr"][lastb]] * (len(so["ptr"]) - lastb - 1)       # last occupied bin's slice closed too early
     saved = ctx.traces
+    rej6 = tracecheck.validate(ctx, "HistTrace.tla", [{"id": 6, "kind": "scale", "sc": sprobe["sc"], "obs": [so], "same": True},
+                                                      {"id": 7, "kind": "scale", "sc": sprobe["sc"], "obs": sprobe["obs"], "same": True},
+                                                      {"id": 8, "kind": "scale", "sc": sprobe["sc"], "obs": sprobe["obs"], "same": False}],
+                               what="self-test: corrupted scale observation rejected", workers=1)
+    if "rev_slice_len_ne_hist" not in rej6.get(6, []) or 7 in rej6 or rej6.get(8) != ["engines_differ"]:
+        raise MachineryError("binding self-test failed: corrupted scale observation not rejected exactly (%s)" % rej6)
     rej = tracecheck.validate(ctx, "HistTrace.tla", [{"id": 1, "kind": "case", "c": probe["c"], "obs": [bad_obs]},
                                                      {"id": 2, "kind": "case", "c": probe["c"], "obs": probe["obs"]},
                                                      {"id": 3, "kind": "history", "h": hprobe["h"], "steps": hbad},
@@ -568,10 +723,13 @@ def run(ctx):
                  len(REPS) + len(SCALAR_REPS), B["HDepth"], sorted(B["HLens"]), sorted(B["HVals"]), B["HThin"], nrand, maxlen, nhist, hmaxlen))
     ctx.exhaustive = True
     ctx.note(bounds={k: sorted(v) if isinstance(v, set) else v for k, v in B.items()}, offlattice_engine_pairs=noff,
-             exported_cases=len(cases), exported_histories=len(hists), covering_design=design)
+             exported_cases=len(cases), exported_histories=len(hists), covering_design=design,
+             simulated_long_histories=len(deep), calls_per_long_history=D["depth"], scale_cases=len(scales),
+             scale_sizes=sorted(B["ScaleNs"]))
     ctx.assumptions = ["dyadic lattice: binary64 subtraction and quotient floor are exact unless the real quotient is an integer and the bin size inexact (those bins are unconstrained)",
                        "non-dyadic data/bin sizes off the lattice are compared engine-vs-engine only",
-                       "equal-occupancy (nperbin) calls inside a history are judged by the partition clauses only (bin occupancy is C14's)"]
+                       "equal-occupancy (nperbin) calls inside a history are judged by the partition clauses only (bin occupancy is C14's)",
+                       "scale cases are judged through the concatenation law (checked by TLC on the small scope) on a run-length encoded projection of the returned arrays"]
 
 
 def replay(ctx, case):
@@ -581,6 +739,11 @@ def replay(ctx, case):
         a, b = observe(x, case["kw"], "c", True, e, buf), observe(x, case["kw"], "py", True, e, buf)
         if (a["err"], a["hist"], a["rev"]) != (b["err"], b["hist"], b["rev"]):
             ctx.violation("histogram|engines_differ|offlattice", "C and Python engines differ", case)
+        return
+    if case.get("kind") == "scale":
+        rec = run_scale((case.get("id", 1), case["sc"]))
+        print("replay observed:", rec["obs"], "engines same:", rec["same"])
+        judge_scale(ctx, [rec], "replay")
         return
     if case.get("kind") == "history":
         rec = run_history((case.get("id", 1), case["h"]))
